@@ -31,15 +31,15 @@ Model values travel as white-space separated tokens ("dump" form; the Rust side 
 Requests (after the family word):
     write  wop*                 primitive writer calls on one DefaultProtocolWriter<Vec<u8>>
                                 wop := u <n> | s <hex> | b <0|1> | o optstr | d data
-                                → `panic` | <hex bytes>
+                                → <hex bytes>
     read <hex> rop*             primitive reader calls on one DefaultProtocolReader
                                 rop := u | u8 | s | b | o | d
                                 → results `u <n>` `s <hex>` `b <0|1>` `o optstr` `d data`, then `E <0|1>`
                                   (has_error) and `P <site>` if the model's fuel ran out
     sink <script> <0|1> wop*    the same calls against a scripted sink; script := . | <i>:(a<k>|e),…
                                 (call i accepts at most k bytes / fails; other calls accept all)
-                                → <done|panic> <hex out> <ok 0|1> <calls>
-    enc-fsm fsm                 → `panic` | <hex image>
+                                → done <hex out> <ok 0|1> <calls>
+    enc-fsm fsm                 → <hex image>
     dec-fsm <hex>               → `ok <haserr> fsm` | `cantread` | `version <hex>` | `panic <site>`
     sink-fsm <script> <0|1> fsm → as `sink`, for FsmWriter::write + close
     bounds-fsm fsm              → byte offsets after each primitive call of the image
@@ -350,7 +350,6 @@ def sFsm (f : Fsm) : List String :=
 def join (l : List String) : String := " ".intercalate l
 
 def sSite : Site → String
-  | .bindingOrdinal n => "binding:" ++ toString n
   | .contentType n => "content:" ++ toString n
   | .modelFuel => "model-fuel"
 
@@ -422,14 +421,12 @@ def opBounds (ops : List Op) : List Nat :=
     let n := acc.1 + op.bytes.length
     (n, n :: acc.2)) (0, [])).2.reverse
 
-def sOutcome : SinkOutcome → String
-  | .done w => join ["done", hex w.out, sBit w.ok, toString w.calls]
-  | .panic w => join ["panic", hex w.out, sBit w.ok, toString w.calls]
+def sOutcome (w : WState) : String := join ["done", hex w.out, sBit w.ok, toString w.calls]
 
 def handle : List String → String
   | "write" :: ts =>
     match parseWops ts with
-    | some ops => if anyPanics ops then "panic" else hex (bytesOf ops)
+    | some ops => hex (bytesOf ops)
     | none => "bad-op"
   | "read" :: h :: ts =>
     match unhex h with
@@ -450,10 +447,7 @@ def handle : List String → String
     | _, _ => "bad-op"
   | "enc-fsm" :: ts =>
     match parseAll pFsm ts with
-    | some f =>
-      match encodeFsm f with
-      | .panic => "panic"
-      | .bytes b => hex b
+    | some f => hex (imageOf f)
     | none => "bad-op"
   | ["dec-fsm", h] =>
     match unhex h with
@@ -474,9 +468,7 @@ def handle : List String → String
     match parseAll pFsm ts with
     | some f =>
       let ops := opsFsm f ++ [Op.flush]
-      match runOps idealSink ops WState.init with
-      | .done w => join [toString ops.length, toString w.calls]
-      | .panic w => join [toString ops.length, toString w.calls, "panic"]
+      join [toString ops.length, toString (runOps idealSink ops WState.init).calls]
     | none => "bad-op"
   | "bounds-fsm" :: ts =>
     match parseAll pFsm ts with
